@@ -22,8 +22,10 @@ NONTRIVIAL = ESSENTIAL + ["popen_race"]
 
 
 def strategy(tier):
-    return graph.graph_case(max_tasks=8 if tier == "quick" else 10, outcomes="some",
+    from hypothesis import strategies as st
+    general = graph.graph_case(max_tasks=8 if tier == "quick" else 10, outcomes="some",
                             foreign=True, tape_max=60, tape_hi=31)
+    return st.one_of(general, general, graph.layered_case(flags=(), p_fail_den=4))
 
 
 def examples(tier):
